@@ -296,6 +296,61 @@ func runC01(c *Ctx) {
 			}
 		}
 	}
+	// three fixed scenarios, every run: a task behind two pivots and the check-in above; a connect that names an ancestor,
+	// then a task below it; the same port-forward socket opened twice
+	for _, svc := range []string{"0", "1"} {
+		mkAgent := func() (uint32, []byte, []byte) {
+			id := r.U32() | 1
+			k, iv := r.Bytes(32), r.Bytes(16)
+			w.keys[id] = [2][]byte{k, iv}
+			return id, k, iv
+		}
+		connect := func(child uint32, ck, civ []byte) []byte {
+			return body(fI(agent.DEMON_PIVOT_SMB_CONNECT), fI(1), fY(initPackage(child, child, ck, civ, genRegInfo(r))))
+		}
+		relay := func(kid uint32, p dpkg) []byte {
+			kk := w.keys[kid]
+			return body(fI(agent.DEMON_PIVOT_SMB_COMMAND), fY(demonRequest(kid, kk[0], kk[1], []dpkg{p})))
+		}
+		send := func(from uint32, p dpkg) {
+			k := w.keys[from]
+			w.line(c, fmt.Sprintf("req - %s %s", svc, hx(demonRequest(from, k[0], k[1], []dpkg{p}))))
+		}
+		// 1: A > B > C, tasks for C, A checks in
+		w.line(c, "reset "+svc)
+		a, ak, aiv := mkAgent()
+		w.line(c, fmt.Sprintf("setup %s %s", svc, hx(initPackage(a, a, ak, aiv, genRegInfo(r)))))
+		b, bk, biv := mkAgent()
+		send(a, dpkg{cmd: agent.COMMAND_PIVOT, req: r.U32(), body: connect(b, bk, biv)})
+		cc, ck, civ := mkAgent()
+		send(a, dpkg{cmd: agent.COMMAND_PIVOT, req: r.U32(), body: relay(b, dpkg{cmd: agent.COMMAND_PIVOT, req: r.U32(), body: connect(cc, ck, civ)})})
+		w.line(c, fmt.Sprintf("task %08x 2", cc))
+		w.line(c, fmt.Sprintf("task %08x 1", b))
+		send(a, dpkg{cmd: agent.COMMAND_GET_JOB, nobody: true})
+		send(a, dpkg{cmd: agent.COMMAND_GET_JOB, nobody: true})
+		// 2: B (below A) reports a connect that names A, then B itself; tasks for B and a check-in must still end
+		w.line(c, "reset "+svc)
+		a, ak, aiv = mkAgent()
+		w.line(c, fmt.Sprintf("setup %s %s", svc, hx(initPackage(a, a, ak, aiv, genRegInfo(r)))))
+		b, bk, biv = mkAgent()
+		send(a, dpkg{cmd: agent.COMMAND_PIVOT, req: r.U32(), body: connect(b, bk, biv)})
+		send(a, dpkg{cmd: agent.COMMAND_PIVOT, req: r.U32(), body: relay(b, dpkg{cmd: agent.COMMAND_PIVOT, req: r.U32(), body: connect(a, r.Bytes(32), r.Bytes(16))})})
+		send(a, dpkg{cmd: agent.COMMAND_PIVOT, req: r.U32(), body: relay(b, dpkg{cmd: agent.COMMAND_PIVOT, req: r.U32(), body: connect(b, r.Bytes(32), r.Bytes(16))})})
+		w.line(c, fmt.Sprintf("task %08x 1", b))
+		w.line(c, fmt.Sprintf("task %08x 1", a))
+		send(a, dpkg{cmd: agent.COMMAND_GET_JOB, nobody: true})
+		send(a, dpkg{cmd: agent.COMMAND_PIVOT, req: r.U32(), body: connect(b, r.Bytes(32), r.Bytes(16))})
+		// 3: the same reverse-port-forward socket id opened twice, then used
+		w.line(c, "reset "+svc)
+		a, ak, aiv = mkAgent()
+		w.line(c, fmt.Sprintf("setup %s %s", svc, hx(initPackage(a, a, ak, aiv, genRegInfo(r)))))
+		open := body(fI(agent.SOCKET_COMMAND_OPEN), fI(7), fI(0x0100007f), fI(4444), fI(0x0100007f), fI(9))
+		send(a, dpkg{cmd: agent.COMMAND_SOCKET, req: 0, body: open})
+		send(a, dpkg{cmd: agent.COMMAND_SOCKET, req: 0, body: open})
+		send(a, dpkg{cmd: agent.COMMAND_SOCKET, req: 0, body: body(fI(agent.SOCKET_COMMAND_OPEN), fI(8), fI(0x0100007f), fI(4444), fI(0x0100007f), fI(9))})
+		send(a, dpkg{cmd: agent.COMMAND_SOCKET, req: 0, body: body(fI(agent.SOCKET_COMMAND_CLOSE), fI(7), fI(agent.SOCKET_TYPE_CLIENT))})
+		c.Count("prelude")
+	}
 	for c.Lines < c.N {
 		svc := "0"
 		if r.Bool() {
